@@ -296,6 +296,11 @@ def value_method(E, recv, name, args, kwargs, fr, node):
             return recv
     if is_byteslike(recv):
         if name == "join":
+            if isinstance(recv, (bytes, bytearray)) and len(recv) == 0 and isinstance(args[0], Ref) and E.cell(args[0])[0] == "pylist" \
+                    and 0 < len(E.cell(args[0])[1]) <= 16:
+                # b"".join([a, b, c]) of a list written out in the source is the concatenation, no recursion needed
+                parts = [E.to_sv(x, TBytes).t for x in E.cell(args[0])[1]]
+                return SV(parts[0] if len(parts) == 1 else z3.Concat(*parts), TBytes)
             sv = E.list_sv(args[0], TBytes)
             if isinstance(recv, (bytes, bytearray)) and len(recv) == 0:
                 t = z3.simplify(sv.t)
